@@ -451,10 +451,20 @@ public:
       typename ttbl_t::term_map_t gen_map /*unused*/;
 
       // Build up the mapping of right onto left, variable by variable.
-      // Assumption: the set of variables in left & right are common.
+      // A variable bound only on the right is unconstrained on the
+      // left: it must be compared as well.
+      std::vector<variable_t> vars;
       for (auto p : left.m_var_map) {
-        if (!left.m_ttbl.map_leq(right.m_ttbl, left.term_of_var(p.first),
-                                 right.term_of_var(p.first), gen_map))
+        vars.push_back(p.first);
+      }
+      for (auto p : right.m_var_map) {
+        if (left.m_var_map.find(p.first) == left.m_var_map.end()) {
+          vars.push_back(p.first);
+        }
+      }
+      for (auto const &v : vars) {
+        if (!left.m_ttbl.map_leq(right.m_ttbl, left.term_of_var(v),
+                                 right.term_of_var(v), gen_map))
           return false;
       }
       return true;
